@@ -923,3 +923,31 @@ def run_typeiddest(prog, ctx=None):
                    "" if ok else "the source is asked for the type of %s() and writes through `%s`, which points to a %s: an object of the destination's own kind is refused, one of the other kind overwrites its head" % (
                        nm, norm(show(de, f)), DT.get("s", name)))
     return res
+
+
+def run_typeidname(prog, ctx=None):
+    """TYPEIDNAME: the specialisations `type_properties<K>::id()` / `type_properties<K *>::id()` of the layout classes answer
+    with the type id registered for K: the function they return is `mpt_<K>_typeid()` or `mpt_<K>_pointer_typeid()` (lineattr is
+    `lattr`).  A specialisation that returns its neighbour's id makes objects of K convert to, and be taken for, the other kind."""
+    import re
+    res = Result("TYPEIDNAME")
+    alias = {v: k for k, v in TYPEID_STEM_ALIAS.items()}
+    for f in sorted(prog.functions.values(), key=lambda f: (f.file, f.line, f.qn)):
+        if f.nocfg:
+            continue
+        m = re.search(r"type_properties<\s*(?:struct\s+)?(?:::)?(?:mpt::)?(\w+)(\s*\*)?\s*>::id$", f.qn)
+        if not m:
+            continue
+        stem = alias.get(m.group(1), m.group(1))
+        want = "mpt_%s%s_typeid" % (stem, "_pointer" if m.group(2) else "")
+        got = set()
+        for b, i, e in f.elements():
+            if e.get("k") == "ret" and e.get("e") is not None:
+                r = strip(e["e"], all_casts=True)
+                if r.get("k") == "call" and (callee_name(r) or "").endswith("_typeid"):
+                    got.add(callee_name(r))
+        if not got:
+            continue
+        ok = got == {want}
+        res.ob("%s" % f.qn, ok, f, f.line, "" if ok else "%s returns %s, the id of another kind; %s is the id of its own" % (f.qn, ", ".join(sorted(got)), want))
+    return res
